@@ -142,6 +142,10 @@ Definition rules_linked (i : image) (rules : list rinfo) : bool :=
   let mq := member_map (map snd (i_bpass i)) in
   forallb (rule_linked mf mb mc md mp mq) rules.
 
+(* ---- bounds reported by the walker of the multipass byte code: every instruction ends inside its part of the rule,
+   every variable number is below NUMVAR, the test part is terminated and no unknown instruction was met (0 < 1) *)
+Definition bounds_ok (l : list (Z * Z)) : bool := forallb (fun vb => (0 <=? fst vb) && (fst vb <? snd vb)) l.
+
 (* ---- the bump allocator (allocateSpaceInTranslationTable): offsets only ever grow *)
 Record arena := mkAr { ar_used : Z; ar_size : Z; ar_allocs : list alloc }.   (* ar_allocs newest first *)
 
